@@ -261,3 +261,22 @@ PROPS["C17"] = {
                   "generated family compiled with the real derive, including compile-outcome checks in dev and release profiles",
     "technique": "Kani/CBMC over derive-expanded code of a generated declaration family + compile-outcome checks of well-formed/malformed declarations",
 }
+
+import c16stage
+PROPS["C16"] = {
+    "feature": "c16",
+    "tiers": tiers("C16"),
+    "stages": [c16stage.stage],
+    "mem_gb": 8,
+    "functions": ["dna!/iupac! proc macros (real expansion inside rustc)", "SeqArray::deref / as_ref", "__bio_seq_count_words!", "kmer! (native family)",
+                  "bio-seq-derive/src/seqarray.rs per-character tables (through the expanded literals)"],
+    "bounds": {"all": "program dimension: fixed literal family (DNA lengths 0,1,2,31,32,33,63,64,65,127,128,129,200; IUPAC lengths 0,1,15,16,17,31,32,33,64,65 and "
+                      "every IUPAC symbol incl. both gap spellings) + VERIF_SEED-random literals; each literal is a separate macro expansion. For the fixed family the "
+                      "solver decides every position (symbolic index) against the generator's expected codes and equality with an equal-content window at another bit "
+                      "offset; SeqArray::deref is decided for symbolic word contents at N in {0,1,31,32,33,64,65} (Dna) / {15,16,17} (Iupac); the word-count helper for "
+                      "all bit counts up to 2^24. Native program family: every literal equals its runtime parse (==, len, display, hash) in dev and release; 22 invalid "
+                      "literals must fail to compile"},
+    "outside": "literals outside the generated family (quantifier over programs; expansion runs inside rustc)",
+    "level_text": "data dimension decided by the solver per generated literal; program dimension covered by a generated family incl. compile-fail programs",
+    "technique": "Kani/CBMC over the expanded literals of a generated program family + compile-outcome checks",
+}
